@@ -415,7 +415,80 @@ def _check_links(case):
         shutil.rmtree(d, ignore_errors=True)
 
 
+# ------------------------------------------------------------------------------------ bounded: a workbook that disappears between two loads
+def _vanish_cases(tier, rng):
+    return [('vanish', how) for how in ('deleted', 'overwritten-with-garbage', 'renamed', 'replaced-by-another-workbook')]
+
+
+def _check_vanish(case):
+    """One process, one directory: a model is loaded while the linked workbook is there (value 43), the linked file is then removed /
+    damaged / replaced, and a NEW model is loaded: what it shows is the state of the files now, whatever was loaded before."""
+    import logging
+    import os
+    import shutil
+    import tempfile
+    import numpy as np
+    import openpyxl
+    import formulas
+    from formulas.tokens.operand import XlError
+    _, how = case
+    logging.disable(logging.CRITICAL)
+    d = tempfile.mkdtemp(prefix='verif_c14v_')
+    try:
+        def book(path, v):
+            wb = openpyxl.Workbook()
+            wb.active.title = 'DATA'
+            wb.active['A1'] = v
+            wb.save(path)
+        ext = os.path.join(d, 'ext.xlsx')
+        book(ext, 42)
+        wb = openpyxl.Workbook()
+        ws = wb.active
+        ws.title = 'S'
+        ws['A1'], ws['A2'] = 7, '=A1+1'
+        ws['B1'] = "='[ext.xlsx]DATA'!A1+1"
+        ws['B2'] = "=IFERROR('[ext.xlsx]DATA'!A1,\"gone\")"
+        main = os.path.join(d, 'main.xlsx')
+        wb.save(main)
+
+        def run():
+            sol = formulas.ExcelModel().loads(main).finish().calculate()
+            return {r: np.asarray(sol["'[main.xlsx]S'!%s" % r].value, object).ravel()[0] for r in ('A2', 'B1', 'B2')}
+        first = run()
+        if first != {'A2': 8, 'B1': 43, 'B2': 42}:
+            return 'with the linked workbook present the cells are %r' % (first,)
+        if how == 'deleted':
+            os.remove(ext)
+        elif how == 'renamed':
+            os.rename(ext, os.path.join(d, 'moved.xlsx'))
+        elif how == 'overwritten-with-garbage':
+            with open(ext, 'wb') as f:
+                f.write(b'not a workbook any more')
+        else:
+            os.remove(ext)
+            book(ext, 100)
+        try:
+            second = run()
+        except Exception as ex:
+            return 'linked workbook %s after a first load: loading raised %s: %s' % (how, type(ex).__name__, str(ex)[:100])
+        if second['A2'] != 8:
+            return 'linked workbook %s: the independent cell A2 shows %r' % (how, second['A2'])
+        if how == 'replaced-by-another-workbook':
+            ok = second['B1'] == 101 and second['B2'] == 100
+        else:
+            ok = isinstance(second['B1'], XlError) and second['B2'] == 'gone'
+        return None if ok else 'linked workbook %s after it had been loaded once in this process: B1 = %r, IFERROR = %r (the files now say %s)' % (
+            how, second['B1'], second['B2'], '101 / 100' if how.startswith('replaced') else '#REF! / "gone"')
+    finally:
+        logging.disable(logging.NOTSET)
+        shutil.rmtree(d, ignore_errors=True)
+
+
 BOUNDED = [
+    Stage('B4:a-linked-workbook-that-disappears-between-two-loads', 'C14', _vanish_cases, _check_vanish,
+          'a linked workbook is loaded once, then deleted / renamed / overwritten with garbage / replaced, and a new model is loaded in the same '
+          'process: the missing workbook gives #REF! (intercepted by IFERROR), a replaced one its new values, independent cells keep theirs',
+          parallel=False),
     Stage('B3:numbered-links-denote-the-entries-of-the-link-table', 'C14', _link_cases, _check_links,
           'workbooks with 1..3 numbered external links, each a readable .xlsx, an absent .xlsx, an .xls or an .xlsm workbook (every arrangement with '
           'distinct kinds): [n]S!A1 is the value of the n-th linked workbook or #REF!, intercepted by IFERROR, and the other cells keep their values',
